@@ -153,6 +153,21 @@ class Extractor:
             last = fn.split("::")[-1]
             if (self.mode == "r" and re.match(r"^(parse|read|from_reader|parse_\w+|read_\w+|from_bytes)$", last)) or \
                     (self.mode == "w" and re.match(r"^(write|write_\w+|to_writer|serialize)$", last)):
+                # a primitive helper (`fn read_u32_field(r) { read_exact(&mut [0; 4]); from_le_bytes }`): a straight run of at most
+                # four fixed-width primitives stands for itself
+                cf = self.crate.fns.get(fn)
+                if cf is not None and cf.hir and cf.kind == "Fn" and getattr(self, "_depth", 0) < 2:
+                    sub_ex = Extractor(self.crate, self.mode)
+                    sub_ex._depth = getattr(self, "_depth", 0) + 1
+                    try:
+                        st = sub_ex.emit(cf.hir["body"])
+                    except Exception:
+                        st = None
+                    if st and len(st) <= 4 and all(t_.k in ("P", "B") and t_.w for t_ in st) and not sub_ex.has_seek:
+                        for t_ in st:
+                            t_.ln = n["ln"]
+                            t_.name = None
+                        return st
                 owner = self.owner_type(n, fn)
                 t = Tok("S", sub=owner, ln=n["ln"])
                 t.kind = fn     # callee path (for inlining delegations)
